@@ -666,13 +666,217 @@ func (c *compiled) model() porcupine.Model {
 	}
 }
 
+// tscale spreads the recorded stamps so that derived order can be expressed
+// between them: invocation stamp t becomes 2*t*tscale, response stamp t becomes
+// 2*t*tscale+tscale (a response and an invocation with the same stamp stay
+// concurrent, as porcupine's closed intervals have it).
+const tscale = int64(1) << 20
+
+// operations renders the history for porcupine. The intervals are narrowed by
+// order that every legal sequential explanation must have anyway (values are
+// written once, so a value identifies its writer):
+//
+//	A  an operation that observed value v comes after the operation that wrote v;
+//	B  an operation R that saw v filed at path p (atomic GetLeafValue of the
+//	   strong model, snapshot, WalkDeleted) has no other successful Add of p and
+//	   no delete that removed p between v's writer and itself: such an operation
+//	   X comes after R if it began after the writer had returned, and before the
+//	   writer if it returned before R began;
+//	C  an operation R that saw no leaf at p (nil lookup, unconditional delete or
+//	   snapshot whose pattern matches p without reporting it) comes before a
+//	   successful Add W of p that did not return before R began, provided every
+//	   delete that removed p returned before W began or began after R returned
+//	   (nothing could have removed W's leaf again in time).
+//
+// "X before Y" narrows X's response to Y's and Y's invocation to X's. The
+// narrowed history has exactly the same linearizations; porcupine, which tries
+// pending operations in invocation order, no longer applies an overwrite before
+// a read of the old value and then searches exponentially for the way back.
+// Inconsistent constraints (possible only for an illegal history) are dropped
+// and the plain intervals judged.
 func (c *compiled) operations() []porcupine.Operation {
-	out := make([]porcupine.Operation, len(c.ops))
+	n := len(c.ops)
+	call, ret := make([]int64, n), make([]int64, n)
+	plain := func() {
+		for i, o := range c.ops {
+			src := &c.h.Ops[o.src]
+			call[i], ret[i] = 2*src.Call*tscale, 2*src.Ret*tscale+tscale
+		}
+	}
+	plain()
+	if !c.narrow(call, ret) {
+		plain()
+	}
+	out := make([]porcupine.Operation, n)
 	for i, o := range c.ops {
-		src := &c.h.Ops[o.src]
-		out[i] = porcupine.Operation{ClientId: src.G, Input: o, Output: o, Call: src.Call, Return: src.Ret}
+		out[i] = porcupine.Operation{ClientId: c.h.Ops[o.src].G, Input: o, Output: o, Call: call[i], Return: ret[i]}
 	}
 	return out
+}
+
+func (c *compiled) narrow(call, ret []int64) bool {
+	n := len(c.ops)
+	writer := make([]int, len(c.valOf)) // value id -> op index, -1 none, -2 several
+	wpath := make([]int, len(c.valOf))
+	for i := range writer {
+		writer[i] = -1
+	}
+	adds := make([][]int, len(c.paths))     // successful adds per path
+	removers := make([][]int, len(c.paths)) // deletes that removed the path
+	for i, o := range c.ops {
+		switch o.kind {
+		case kAdd, kUpd:
+			if o.kind == kAdd && o.err {
+				continue
+			}
+			p := o.p
+			if o.kind == kUpd {
+				p = c.hpath[o.h]
+			} else {
+				adds[p] = append(adds[p], i)
+			}
+			if writer[o.val] == -1 {
+				writer[o.val], wpath[o.val] = i, p
+			} else {
+				writer[o.val] = -2
+			}
+		case kDel:
+			for _, p := range o.outSet {
+				removers[p] = append(removers[p], i)
+			}
+		}
+	}
+	for i, o := range c.ops {
+		if o.kind == kWalkDel {
+			for _, v := range o.outVals {
+				if writer[v] >= 0 {
+					removers[wpath[v]] = append(removers[wpath[v]], i)
+				}
+			}
+		}
+	}
+	type obs struct{ r, w, p int }
+	var seen []obs   // r saw the value written by w filed at p
+	var absent []obs // r saw no leaf at p (w unused)
+	type edge struct{ x, y int }
+	edges := map[edge]bool{}
+	for i, o := range c.ops {
+		var vals []uint16
+		inTree := false
+		switch o.kind {
+		case kRead:
+			vals = []uint16{o.got}
+		case kGLV, kRootVal:
+			vals, inTree = []uint16{o.got}, true
+			if o.got == 0 {
+				absent = append(absent, obs{r: i, p: o.p})
+			}
+		case kBind:
+			if o.node == hNil {
+				absent = append(absent, obs{r: i, p: o.p})
+			}
+		case kWalkDel:
+			vals, inTree = o.outVals, true
+		case kDel:
+			if !o.cond {
+				k := 0
+				for _, p := range o.match {
+					if k < len(o.outSet) && o.outSet[k] == p {
+						k++
+					} else {
+						absent = append(absent, obs{r: i, p: p})
+					}
+				}
+			}
+		case kSnap:
+			inTree = true
+			k := 0
+			for _, p := range o.match {
+				if k < len(o.outKV) && o.outKV[k][0] == p {
+					vals = append(vals, uint16(o.outKV[k][1]))
+					k++
+				} else {
+					absent = append(absent, obs{r: i, p: p})
+				}
+			}
+		}
+		for _, v := range vals {
+			if v == 0 || writer[v] < 0 {
+				continue
+			}
+			edges[edge{writer[v], i}] = true // rule A
+			if inTree {
+				seen = append(seen, obs{i, writer[v], wpath[v]})
+			}
+		}
+	}
+	for round := 0; ; round++ {
+		if round > n+2 {
+			return false
+		}
+		// propagate
+		for changed, it := true, 0; changed; it++ {
+			if it > n+2 {
+				return false // cyclic
+			}
+			changed = false
+			for e := range edges {
+				if call[e.y] <= call[e.x] {
+					call[e.y] = call[e.x] + 1
+					changed = true
+				}
+				if ret[e.x] >= ret[e.y] {
+					ret[e.x] = ret[e.y] - 1
+					changed = true
+				}
+			}
+		}
+		for i := range call {
+			if call[i] > ret[i] {
+				return false
+			}
+		}
+		// rules B and C with the intervals as narrowed so far
+		grew := false
+		put := func(e edge) {
+			if !edges[e] {
+				edges[e] = true
+				grew = true
+			}
+		}
+		for _, s := range seen {
+			for _, list := range [][]int{adds[s.p], removers[s.p]} {
+				for _, x := range list {
+					if x == s.w || x == s.r {
+						continue
+					}
+					switch {
+					case ret[s.w] < call[x]:
+						put(edge{s.r, x})
+					case ret[x] < call[s.r]:
+						put(edge{x, s.w})
+					}
+				}
+			}
+		}
+		for _, s := range absent {
+		nextAdd:
+			for _, w := range adds[s.p] {
+				if w == s.r || ret[w] < call[s.r] {
+					continue // then some delete lies between them; nothing to derive
+				}
+				for _, d := range removers[s.p] {
+					if d != s.r && !(ret[d] < call[w] || ret[s.r] < call[d]) {
+						continue nextAdd
+					}
+				}
+				put(edge{s.r, w})
+			}
+		}
+		if !grew {
+			return true
+		}
+	}
 }
 
 // ---- verdict ---------------------------------------------------------------------------------
